@@ -52,6 +52,10 @@ type Profile struct {
 	WFail       bool        `json:"wfail"`
 	MaxConsume  int         `json:"max_consume"`     /* Only with a small och. */
 	Await       bool        `json:"await,omitempty"` /* The operator's side may also be found waiting for the next item. */
+	/* LateOut: a Read that is pending when the Connect call returns stays
+	pending (as net/http's does: closing the request body waits for it) and
+	may still be handed one more chunk. */
+	LateOut bool `json:"late_out,omitempty"`
 	Oracles     []string    `json:"oracles"`
 	MaxDepth    int         `json:"max_depth"`
 	/* LinePayload, if set, is appended to every entered line. */
@@ -210,6 +214,7 @@ type World struct {
 	attempts []*attempt
 	usage    []int
 	retQ     []int /* Attempts whose Connect* returned since the last step. */
+	lateOutA int   /* The attempt handed a chunk after its Connect* had returned, in this step (-1: none). */
 
 	linesEntered      int
 	entered           []string
@@ -482,6 +487,7 @@ func (w *World) Do(e Event) *Step {
 	st := &Step{Ev: e}
 	w.Hist = append(w.Hist, e)
 	pre := w.snapshotHalves()
+	w.lateOutA = -1
 	switch e.Op {
 	case "start":
 		w.start(e.Spec)
@@ -547,6 +553,13 @@ func (w *World) Do(e Event) *Step {
 			w.c03For(a).ended = o.Err
 		}
 		a.r.supply([]byte(data), outErr(o.Err))
+		if a.returned {
+			/* A late chunk: the pending Read took it; the stream is
+			closed to any further one. */
+			w.lateOutA = a.id
+			w.c03For(a).disturbed = true
+			a.r.close()
+		}
 		if "outcancel" == e.Op {
 			a.cancelled = true
 			a.cancel()
@@ -630,7 +643,7 @@ func (w *World) settle(st *Step) {
 			a := w.attempts[id]
 			a.returned = true
 			st.Returned = append(st.Returned, id)
-			if nil != a.r {
+			if nil != a.r && !(w.P.LateOut && a.r.isParked()) {
 				a.r.close()
 				moved = true
 			}
@@ -764,6 +777,9 @@ func (w *World) Canon() string {
 			if hDone != h.st {
 				allDone = false
 			}
+		}
+		if allDone && w.P.LateOut && nil != a.r && a.r.isParked() && a.outsUsed < w.P.MaxOuts {
+			allDone = false /* May still be handed a chunk. */
 		}
 		if allDone {
 			continue
